@@ -130,6 +130,41 @@ Arguments d_func {V}. Arguments d_shape {V}. Arguments d_post {V}. Arguments d_k
 Arguments RErr {V}. Arguments RInit {V}. Arguments RMat {V}. Arguments not_none {V}.
 Arguments post_process {V}. Arguments call {V}. Arguments hcall {V}. Arguments hrun {V}.
 
+(* ------------------------------------------------------------------------------------------------ Part 1b *)
+(* A keyword VALUE that is a reference to a mutable object: a numpy Generator stored as [seed] in a partial application.
+   A cell holds the position of the generator in its stream (number of draws already made; numpy determinism = a draw is a
+   function of that position and of the request).  A partial is the address of the cell stored in its _kwargs["seed"].
+   copy.deepcopy(self) copies the cell too: the call draws from the copy; a derived partial owns a copy.
+   The shallow variant (copy.copy(self) + a fresh dict) shares the cell. *)
+Inductive gop := GCall (r : nat) | GPartial (r : nat).   (* partial_r( *shape) ; partial_r( **more_kwargs) *)
+Record gstate := mkG { g_store : list nat; g_partials : list nat }.
+Fixpoint set_nth (a v : nat) (l : list nat) : list nat :=
+  match l, a with
+  | [], _ => []
+  | _ :: l', O => v :: l'
+  | x :: l', S a' => x :: set_nth a' v l'
+  end.
+(* returns the new state and, for a call, the stream position the matrix was drawn from *)
+Definition gstep (deep : bool) (g : gstate) (o : gop) : gstate * option nat :=
+  match o with
+  | GCall r =>
+      let a := nth r (g_partials g) 0 in
+      let s := nth a (g_store g) 0 in
+      if deep then (mkG (g_store g ++ [S s]) (g_partials g), Some s)
+      else (mkG (set_nth a (S s) (g_store g)) (g_partials g), Some s)
+  | GPartial r =>
+      let a := nth r (g_partials g) 0 in
+      if deep then (mkG (g_store g ++ [nth a (g_store g) 0]) (g_partials g ++ [length (g_store g)]), None)
+      else (mkG (g_store g) (g_partials g ++ [a]), None)
+  end.
+Fixpoint grun (deep : bool) (g : gstate) (ops : list gop) : gstate * list (option nat) :=
+  match ops with
+  | [] => (g, [])
+  | o :: ops' => let '(g1, r) := gstep deep g o in let '(g2, rs) := grun deep g1 ops' in (g2, r :: rs)
+  end.
+(* the user's Generator is cell 0, at position 0; init(seed=rng, ...) stores that very object *)
+Definition g0 : gstate := mkG [0] [0].
+
 (* ------------------------------------------------------------------------------------------------ Part 2 *)
 Section Scale.
 Context {F : Type} `{Num F}.
